@@ -47,7 +47,7 @@
 #define SLACK 0           /* bytes of the heap object BEHIND the event (see the header) */
 #endif
 
-#define HARNESS_INPUTS uint8_t raw[EVMAX]; uint8_t slack[16]; int stale_jumbo; int debug; int nbursts; int64_t sclock;
+#define HARNESS_INPUTS uint8_t raw[EVMAX]; uint8_t slack[16]; uint8_t stale_nil; int stale_jumbo; int debug; int nbursts; int64_t sclock;
 #include "C08/model_env.h"
 #include "src/emu/emu_ev.c"
 
@@ -130,6 +130,7 @@ harness(void)
 
 	/* ---- real conversion on the player's reused struct emu_ev */
 	ev.is_jumbo = IN.stale_jumbo;
+	ev.nil = IN.stale_nil;             /* emu_ev() itself must terminate mcv, whatever the struct held */
 	emu_ev(&ev, (const struct ovni_ev *) oevb, IN.sclock, IN.e.dclock);
 	V_ASSERT(ev.m == m && ev.c == c && ev.v == v && ev.mcv[3] == '\0', "C19: emu_ev copies the code and nil-terminates mcv");
 	V_ASSERT((int64_t) ev.payload_size == psize, "C19: emu_ev payload size is the announced one");
